@@ -24,7 +24,10 @@ CLAIM = {
             "afterwards writes that channel's snapshot to the store keeps the map guard until the write is done; (R20.5) "
             "one snapshot per reply: no struct or tuple is assembled from values read under two different holds of "
             "the chain tracker or of the node state (own acquisitions, or callees that lock and release the class "
-            "themselves), e.g. a heartbeat whose tip and height come from two acquisitions. Does not decide "
+            "themselves), e.g. a heartbeat whose tip and height come from two acquisitions; (R20.6) one request, one "
+            "critical section per node-wide structure: no function takes the node state, the chain tracker or the "
+            "channel map for writing inside a loop (releasing and re-taking it between the items of one request "
+            "lets another request observe a half-applied batch). Does not decide "
             "linearizability of outcomes (schedule-dependent values).",
     "note": "CHA over-approximates dynamic dispatch; lock identity is abstracted to the protected type (two "
             "ChannelSlot mutexes are one class); try_lock is treated as lock",
@@ -48,6 +51,7 @@ def run(ctx):
     r203(ctx)
     r204(ctx)
     r205(ctx)
+    r206(ctx)
 
 
 def r201(ctx):
@@ -484,3 +488,52 @@ def r205(ctx):
     if not anchor:
         raise R.Broken("C20/R20.5: anchor missing: Node::get_heartbeat no longer builds a Heartbeat from the chain tracker")
     ctx.extra["aggregates_examined"] = n_agg
+
+
+# ------------------------------------------------------------------ R20.6
+BATCH_CLASSES = {"NodeState", "ChainTracker<ChainMonitor>", "BTreeMap<ChannelId, Arc<Mutex<ChannelSlot>>>"}
+
+
+def r206(ctx):
+    ctx.rule("R20.6", "a batch is applied in one critical section: no acquisition of a node-wide lock (node state, chain tracker, "
+                      "channel map) for writing sits inside a loop of the function that processes the request")
+    p = ctx.prog
+    la = locks.LockAnalysis(p, scope=lambda x: False)
+    n_fn = n_acq = 0
+    for b in p.bodies.values():
+        if b.d.krate not in SCOPE_CRATES or b.d.is_bin:
+            continue
+        on = R.owner_name(p, b)
+        if R.is_test_util(on) or on in NOT_SHARED:
+            continue
+        f = la.facts(b)
+        acq = [(bi, c, cls) for bi, c, cls, src in f["acq_sites"] if src is None and cls in BATCH_CLASSES]
+        if not acq:
+            continue
+        n_fn += 1
+        fv = fnview(ctx, b)
+        guards = f["guards"]
+        mutref = {}
+        for bi in range(fv.n):
+            if b.cleanup[bi]:
+                continue
+            for s_ in b.stmts(bi):
+                if s_.kind == "a" and s_.rv.op == "ref" and s_.rv.a and s_.place.is_local() and \
+                   s_.rv.place.is_local() and s_.rv.place.local in guards:
+                    mutref[s_.place.local] = s_.rv.place.local
+        written = set()
+        for bi, c in b.calls():
+            nm = c.callee.name if c.callee else ""
+            if "ops::DerefMut>::deref_mut" in nm and c.args and c.args[0].place is not None and c.args[0].place.local in mutref:
+                written.add(mutref[c.args[0].place.local])
+        for bi, c, cls in acq:
+            n_acq += 1
+            t = c.target if c.target is not None else bi
+            in_loop = bi in fv.reach(t)
+            g = c.dest.local
+            ctx.ob("R20.6", not (in_loop and g in written), f"{on}/lock-per-item/{cls}",
+                   f"`{on}` takes the {cls} lock for writing inside a loop (line {c.line}): the lock is released and re-taken between "
+                   "the items of one request, so a concurrent request can observe (and answer from) a half-applied batch",
+                   where=f"{b.file}:{c.line}", sample=f"{cls} acquired once, outside any loop")
+    ctx.floor("R20.6", "functions acquiring a node-wide lock", n_fn, 20)
+    ctx.extra["node_wide_acquisitions"] = n_acq
